@@ -54,14 +54,23 @@ def build(program):
                         return total
             return total
         return fn
+    done = set()
     for fname, fd in program.items():
-        def init(self, fd=fd, fname=fname, **kw):
+        cname = fname.split(':')[0]
+        if cname in done:
+            continue
+        done.add(cname)
+
+        def init(self, cname=cname, **kw):
+            inst = kw.get('instance')
+            full = cname if inst is None else f'{cname}:{inst}'
+            fd = program[full]
             ins = [IntegerInput(n) for n in fd['inputs']]
-            req = [IntegerField(n, mk(fname, n, fd['lines'][n])) for n in fd['lines'] if n in fd['required']]
-            opt = [IntegerField(n, mk(fname, n, fd['lines'][n])) for n in fd['lines'] if n not in fd['required']]
+            req = [IntegerField(n, mk(full, n, fd['lines'][n])) for n in fd['lines'] if n in fd['required']]
+            opt = [IntegerField(n, mk(full, n, fd['lines'][n])) for n in fd['lines'] if n not in fd['required']]
             Form.__init__(self, type(self), ins, req, opt, **kw)
-        cls = type('Toy_' + fname, (Form,), {'form_name': fname, 'tax_year': 1, '__init__': init,
-                                             'description': fname, 'long_description': fname})
+        cls = type('Toy_' + cname, (Form,), {'form_name': cname, 'tax_year': 1, '__init__': init,
+                                             'description': cname, 'long_description': cname})
         classes.append(cls)
     return classes, evals, traces
 
@@ -280,6 +289,10 @@ def fixed_programs():
     P.append({'a': {'inputs': ['x'], 'lines': {'w': [('v', 'zz.q')]}, 'required': ['w']}})
     P.append({'a': {'inputs': [], 'lines': {'t': [('v', 'b.r')]}, 'required': ['t']},
               'b': {'inputs': ['k1', 'k2', 'k3'], 'lines': {'r': [('in', 'k1'), ('in', 'k2'), ('in', 'k3')]}, 'required': ['r']}})
+    # two instances of one form class with different amounts, read through unqualified names
+    P.append({'a': {'inputs': [], 'lines': {'t': [('v', 'c:x.s'), ('v', 'c:y.s')]}, 'required': ['t']},
+              'c:x': {'inputs': ['p'], 'lines': {'s': [('v', 'u'), ('in', 'p')], 'u': [('in', 'p')]}, 'required': ['s']},
+              'c:y': {'inputs': ['p'], 'lines': {'s': [('v', 'u'), ('in', 'p')], 'u': [('in', 'p')]}, 'required': ['s']}})
     return P
 
 
@@ -326,7 +339,7 @@ def scenarios(seed=0, n_random=150):
         all_inputs = [f'{f}.{i}' for f, fd in prog.items() for i in fd['inputs']]
         reqs = [[list(prog)[0]]] + ([list(prog)] if len(prog) > 1 else [])
         for requested in reqs:
-            full = {k: rnd.choice([0, 1, 2]) for k in all_inputs}
+            full = {k: rnd.choice([0, 1, 2]) + (10 * (ix + 1) if ':' in k else 0) for ix, k in enumerate(all_inputs)}
             yield prog, requested, full, None, None
             yield prog, requested, {}, full, None
             half = {k: v for k, v in full.items() if rnd.random() < 0.5}
